@@ -743,6 +743,7 @@ fn routes(tier: Tier, cli: &str, st: &mut Stats, all_lines: &mut Vec<Value>) {
         }
     }
     directory_layouts(tier, &dir, &exe, st, all_lines);
+    stale_destination_histories(&dir, &exe, st, all_lines);
     // missing grammar file
     let o = Command::new(cli).arg(dir.join("does-not-exist.ebnf")).stdout(Stdio::null()).stderr(Stdio::null()).status().unwrap();
     st.evaluations += 1;
@@ -851,6 +852,58 @@ fn directory_layouts(tier: Tier, dir: &std::path::Path, exe: &std::path::Path, s
         st.bump("directory_layout_runs", e);
         st.violations += lines.len() as u64;
         all_lines.extend(lines);
+    }
+}
+
+/// Two-step histories: an accepted grammar is compiled to a destination, then a refused grammar is compiled to the
+/// same destination - the same grammar file overwritten, or a second grammar file - with the refused grammar's file
+/// dated before, at and after the destination's time stamp. The second run must fail whatever the clocks say.
+fn stale_destination_histories(dir: &std::path::Path, exe: &std::path::Path, st: &mut Stats, all_lines: &mut Vec<Value>) {
+    const GOOD: &str = "@export R = 'a' x:X; @string X = 'b';";
+    let bads = ["@export R = 'a' >Missing;", "@export R = 'a' x:X", "@export @string R = 'a';", "@export Top = @:Item;\nItem = x:X @:X; @string X = 'b';"];
+    if compile_isolated(exe, GOOD) != Some(true) {
+        return;
+    }
+    let mut n = 0u64;
+    for bad in bads.iter().filter(|b| compile_isolated(exe, b) == Some(false)) {
+        for offset in [-3600i64, -10, 0, 10] {
+            for shared in ["same grammar file overwritten", "second grammar file, same destination"] {
+                for mode in ["run", "dir"] {
+                    if mode == "dir" && shared != "same grammar file overwritten" {
+                        continue;
+                    }
+                    n += 1;
+                    let root = dir.join(format!("stale-{n}"));
+                    std::fs::create_dir_all(&root).unwrap();
+                    let g1 = root.join("g.ebnf");
+                    let dest = root.join("g.rs");
+                    std::fs::write(&g1, GOOD).unwrap();
+                    let run = |g: &std::path::Path| -> Option<i32> {
+                        let args: Vec<&str> = if mode == "run" { vec!["c15compile", "run", g.to_str().unwrap(), dest.to_str().unwrap()] } else { vec!["c15compile", "dir", root.to_str().unwrap()] };
+                        Command::new(exe).args(&args).stdout(Stdio::null()).stderr(Stdio::null()).status().unwrap().code()
+                    };
+                    let first = run(&g1);
+                    let g2 = if shared == "same grammar file overwritten" || mode == "dir" { g1.clone() } else { root.join("h.ebnf") };
+                    std::fs::write(&g2, bad).unwrap();
+                    let dest_time = std::fs::metadata(&dest).and_then(|m| m.modified()).ok();
+                    if let Some(t) = dest_time {
+                        let when = if offset < 0 { t - std::time::Duration::from_secs((-offset) as u64) } else { t + std::time::Duration::from_secs(offset as u64) };
+                        let _ = std::fs::File::options().write(true).open(&g2).and_then(|f| f.set_modified(when));
+                    }
+                    let second = run(&g2);
+                    st.evaluations += 1;
+                    st.nontrivial += 1;
+                    st.bump("stale_destination_histories", 1);
+                    if first != Some(0) || second != Some(7) {
+                        st.violations += 1;
+                        all_lines.push(json!({"k":"viol","prop":"C15","kind": "refused-grammar-over-existing-destination","grammar": bad, "family":"routes", "why": "stale destination",
+                            "input": format!("{shared}; refused grammar's file dated {offset} s relative to the destination; {}", if mode == "run" { "Compile::file" } else { "Compile::directory" }),
+                            "site": "Compile::run", "expected": "first run Some(0) (accepted grammar), second run Some(7) (Err from run())", "actual": format!("first {:?}, second {:?}", first, second)}));
+                    }
+                    let _ = std::fs::remove_dir_all(&root);
+                }
+            }
+        }
     }
 }
 
